@@ -7,7 +7,13 @@ import PysnarkModel.Driver.Proto
 structured values: `i:5` int, `f:3:1` float 3/2^1, `L:5` PrivVal(5), `B:1` PrivValBool(1), `X:3:1` PrivValFxp(3/2^1),
 `[a,b]` list, `(a,b)` tuple (no spaces)
 `K|id|bl|schema|value`          → pack then unpack
+`K|id|bl|schema|bits|U|p|ign`   → unpack only, on the given list of bits, field `p`, error checking off iff `ign` ≠ 0
 `NI|id|res|value` / `NO|id|res|value` → snarkIn / snarkOut
+`NI|id|res|value|guards` / `NO|…|guards` → the same inside `guarded(c1)(… guarded(ck)(…) …)`, `guards` a
+comma-separated list of `L:g` (`PrivVal(g)`) / `B:g` (`PrivValBool(g)`), outermost first; the conditions are
+created first, the value is built and converted inside the innermost region; the reply then also carries the
+whole tracer state.  In NI/NO values `@k` stands for the k-th list/tuple completed so far in the value (the
+SAME Python object on the implementation side; the model has no object identity: the same value again).
 -/
 namespace Pysnark.ProtoStruct
 open Pysnark
@@ -63,22 +69,90 @@ def handlePack (fields : List String) : String :=
       | .ok ((bits, back), s) => s!"{id}|ok|{sch.bitlen}|{Proto.valStr s.p bits}|{Proto.valStr s.p back}|ncons={s.cons.length}"
       | .error e => s!"{id}|err:{e.name}|{sch.bitlen}"
     | _, _ => s!"{id}|bad"
+  | [id, bl, sch, value, "U", p, ign] =>
+    -- unpack ONLY, applied to a caller-supplied list of bits (`L:b` = a raw secret `PrivVal(b)`, `B:b` a secret of the
+    -- boolean type, `i:b` a plain int), over the field `p`, with error checking on (`ign` = 0) or off
+    match bl.toNat?, ProtoPack.schema? sch, p.toInt?, ign.toNat? with
+    | some bl, some sch, some p, some ign =>
+      let m : M Val := do
+        let v ← build (value.length + 2) value.toList
+        match v with
+        | .list bs => unpackV sch bs 0
+        | _ => raise .unmodelled
+      match m { st0 bl 8 with p := p, ignoreErrors := ign != 0 } with
+      | .ok (back, s) =>
+        s!"{id}|ok|{sch.bitlen}|{Proto.valStr s.p back}|NPRIV={s.priv.length}|CONS={" & ".intercalate (s.cons.map (Proto.consStr s.p))}"
+      | .error e => s!"{id}|err:{e.name}|{sch.bitlen}"
+    | _, _, _, _ => s!"{id}|bad"
   | _ => "bad-line"
+
+/-- thread the list of completed containers through the parts of a list/tuple -/
+def foldParts (f : List Val → List Char → M (Val × List Val)) :
+    List Val → List (List Char) → M (List Val × List Val)
+  | memo, [] => pure ([], memo)
+  | memo, p :: ps => do
+    let (v, m1) ← f memo p
+    let (vs, m2) ← foldParts f m1 ps
+    pure (v :: vs, m2)
+
+/-- `build` with references to earlier containers: `@k` is the k-th list/tuple completed so far -/
+def buildS : Nat → List Val → List Char → M (Val × List Val)
+  | 0, _, _ => raise .unmodelled
+  | fuel+1, memo, cs =>
+    match cs with
+    | '[' :: r => do
+        let (vs, m) ← foldParts (buildS fuel) memo (splitTop r.dropLast)
+        pure (.list vs, m ++ [.list vs])
+    | '(' :: r => do
+        let (vs, m) ← foldParts (buildS fuel) memo (splitTop r.dropLast)
+        pure (.tuple vs, m ++ [.tuple vs])
+    | '@' :: k =>
+      match (String.ofList k).toNat? with
+      | some k => match memo[k]? with
+        | some v => pure (v, memo)
+        | none => raise .unmodelled
+      | none => raise .unmodelled
+    | _ => do let v ← build 1 cs; pure (v, memo)
+
+/-- the condition of one `guarded(...)`: `L:g` is `PrivVal(g)`, `B:g` is `PrivValBool(g)` -/
+def guardCond (t : String) : M Val :=
+  match t.splitOn ":" with
+  | ["L", v] => match v.toInt? with | some v => mkVal .priv (.int v) | none => raise .unmodelled
+  | ["B", v] => match v.toInt? with | some v => mkVal .privb (.int v) | none => raise .unmodelled
+  | _ => raise .unmodelled
+
+/-- `guarded(c1)(lambda: guarded(c2)(... m ...)())()`: `add_guard`, run, `restore_guard` (an exception ends the run) -/
+def withGuards {α : Type} : List Val → M α → M α
+  | [], m => m
+  | c :: cs, m => do
+    let bak ← addGuard c
+    let a ← withGuards cs m
+    restoreGuard bak
+    pure a
+
+def snarkLine (isIn : Bool) (id : String) (res : Nat) (value : String) (guards : List String) : String :=
+  let m : M (Val × Nat) := do
+    let conds ← mapM' guardCond guards
+    withGuards conds (do
+      let (v, _) ← buildS (value.length + 2) [] value.toList
+      let s0 ← getSt
+      let r ← if isIn then snarkIn v else snarkOut v
+      pure (r, s0.pub.length))
+  match m (st0 32 res) with
+  | .ok ((r, np0), s) =>
+    s!"{id}|ok|{Proto.valStr s.p r}|pubs={",".intercalate ((s.pub.drop np0).map toString)}|ncons={s.cons.length}|npriv={s.priv.length}"
+      ++ (if guards.isEmpty then "" else "|" ++ Proto.stStr s)
+  | .error e => s!"{id}|err:{e.name}"
 
 def handleSnark (isIn : Bool) (fields : List String) : String :=
   match fields with
   | [id, res, value] =>
     match res.toNat? with
-    | some res =>
-      let m : M (Val × Nat × Nat) := do
-        let v ← build (value.length + 2) value.toList
-        let s0 ← getSt
-        let r ← if isIn then snarkIn v else snarkOut v
-        pure (r, s0.pub.length, s0.cons.length)
-      match m (st0 32 res) with
-      | .ok ((r, np0, _nc0), s) =>
-        s!"{id}|ok|{Proto.valStr s.p r}|pubs={",".intercalate ((s.pub.drop np0).map toString)}|ncons={s.cons.length}|npriv={s.priv.length}"
-      | .error e => s!"{id}|err:{e.name}"
+    | some res => snarkLine isIn id res value []
+    | none => s!"{id}|bad"
+  | [id, res, value, guards] =>
+    match res.toNat? with
+    | some res => snarkLine isIn id res value (guards.splitOn ",")
     | none => s!"{id}|bad"
   | _ => "bad-line"
 
